@@ -21,6 +21,7 @@ positions with every request type, and reports the scenario that kills or stalls
 -/
 import LuaHelper.Model.Annot
 import LuaHelper.Gen.Sites
+import LuaHelper.Gen.Preds
 namespace LuaHelper.C01
 open LuaHelper.Annot
 
@@ -105,5 +106,24 @@ theorem lexLine_fuel : ∀ (f : Nat) (chunk : Bytes), chunk.length < f → ∀ k
 theorem lexLine_enough (line : Bytes) (k : Nat) : lexLine (line.length + 1 + k) line = lexLine (line.length + 1) line :=
   lexLine_fuel (line.length + 1) line (by omega) k
 #print axioms lexLine_enough
+
+/-! ### the variable index of a declaration list (repair 70cff17) -/
+
+/-- `common.MakeVarIndex` as it stands in /repo (translated on every run): for EVERY position the index it yields
+    is between 1 and 255 — it never wraps to 0, the value with which `ReturnVarVec[index-1]` was indexed out of range
+    for the 256th name of a list — and it is the position itself wherever a uint8 can hold it -/
+theorem makeVarIndex_range (i : Int) :
+    1 ≤ Gen.makeVarIndex i ∧ Gen.makeVarIndex i ≤ 255 ∧ (1 ≤ i → i ≤ 255 → Gen.makeVarIndex i = i) := by
+  unfold Gen.makeVarIndex
+  by_cases h1 : i < 1
+  · simp [h1]; omega
+  · by_cases h2 : i > 255
+    · simp [h1, h2]; omega
+    · simp [h1, h2]; omega
+#print axioms makeVarIndex_range
+
+/-- what the conversion it replaced did at position 256 (uint8 arithmetic): the index 0 -/
+theorem old_varIndex_wraps : ((256 : Nat) % 256 = 0) ∧ (BitVec.ofNat 8 256 = 0#8) := by decide
+#print axioms old_varIndex_wraps
 
 end LuaHelper.C01
